@@ -1400,4 +1400,35 @@ theorem N4_from_pull_witness :
     resolveName rEnv s0 [] (nm "library" "FOO") = nm "library" "foo" ∧
     (s0.man (resolveName rEnv s0 [] (nm "library" "FOO"))).isSome = true := by decide +kernel
 
+
+/-- **`create … from` of a model that is not in the store** (the pull inside `parseFromModel`, then the create):
+    on the repaired tree the invariant is preserved and every model other than the target `nm` and the pulled
+    FROM model `sn` keeps its manifest file and its blobs — whatever the two names are and whatever a truthful
+    registry serves.  (What is NOT claimed: that no case twin appears — on /repo `sn` is the name as written in
+    the request, finding N4.) -/
+theorem create_from_pull_good {env : Env} (hv : env.v.fixAlias = true) (hk : env.v.fixKeep = true)
+    (hinj : HashInj env) (st : Store) (hi : Inv env st) (r : CreateReq) (nm sn : Name) (reg : Manifest)
+    (served : List (String × Bytes)) (hp : PullOk env reg) :
+    Inv env (createFromPull env st r nm sn reg served).1 ∧
+    ∀ n, n ≠ nm → n ≠ sn →
+      (createFromPull env st r nm sn reg served).1.man n = st.man n ∧
+      ∀ m, st.man n = some (.readable m) → ∀ l ∈ m.all, ∀ c,
+        st.blob l.digest.key = some c → (createFromPull env st r nm sn reg served).1.blob l.digest.key = some c := by
+  have g := createFromPull_good hinj hi.1 (Or.inl hv) hk r (fun _ _ => Or.inl hv) nm sn reg served hp
+  refine ⟨⟨g.blobsOk, g.nameInv hi.2.1, g.legacy hi.2.2⟩, fun n h1 h2 => ?_⟩
+  have hn : n ∉ [nm, sn] := by simp [h1, h2]
+  exact ⟨g.frameMan n hn, fun m hm l hl c h => g.frameBlob n m hn hm l hl c h⟩
+
+/-- N4 on the composed operation itself: with the FROM name as written (`FOO`) a twin of `foo` is listed; with
+    the name `getExistingName` resolves it to (`foo`, in the store) nothing is pulled and no twin appears -/
+theorem N4_createFromPull_witness :
+    let s0 := run rEnv Store.empty [(.upload ⟨.colon, "G"⟩ gG, ch0), (mk (nm "library" "foo") .colon, ch0)]
+    let r : CreateReq := ⟨nm "library" "b", some (nm "library" "FOO"), [], none, none, [], [], []⟩
+    let pinned := createFromPull rEnv s0 r (nm "library" "b") (nm "library" "FOO") regM [("G", gG), ("C", [67])]
+    let fixed := createFromPull rEnv s0 r (nm "library" "b") (resolveName rEnv s0 [] (nm "library" "FOO")) regM
+      [("G", gG), ("C", [67])]
+    pinned.2 = ["s", "s"] ∧ (listed pinned.1).length = 3 ∧ (listed pinned.1).contains (nm "library" "FOO") = true ∧
+    fixed.2 = ["s"] ∧ (listed fixed.1).length = 2 ∧ (listed fixed.1).contains (nm "library" "FOO") = false ∧
+    incompleteB pinned.1 = false ∧ incompleteB fixed.1 = false := by decide +kernel
+
 end OllamaVerif.C04
